@@ -49,7 +49,7 @@ func init() {
 		ID: "C30", Title: "Transaction signatures bind every field that affects execution", World: "crypto",
 		Gen: genC30, Exec: execC30,
 		Quick:    sim.Budget{Runs: 2000, WallS: 60},
-		Thorough: sim.Budget{Runs: 100000, WallS: 840},
+		Thorough: sim.Budget{Runs: 60000, WallS: 840},
 		LevelText: "seeded search: honest sim clients build and sign real transactions (both signature schemes, send / data / smart-contract shapes, boundary values); " +
 			"a simulated byzantine link mutates one wire field per delivery (every JSON-visible field of transaction.Transaction found by reflection; numbers +-1/other, strings bit-flipped/replaced/extended/emptied, type switched) " +
 			"or forges sender/key/signature combinations; the receiver runs the shipped submission path (JSON decode, ComputeProperties, ValidateWrtTime) or the shipped in-block path (Block.ComputeProperties, miner ValidateTransactions). " +
